@@ -101,6 +101,16 @@ class Life:
         self._spy(ch, side, "channel:" + ch.label)
         if side == "B":
             ch.on("message", lambda m, ch=ch: ch.readyState == "open" and ch.send(m))
+        if not ch.label.startswith("after-"):
+            # an application that reacts to a channel closing by opening a replacement at once (the association may just have
+            # been aborted by the peer, the connection itself not yet closed)
+            def reopen(side=side, ch=ch):
+                try:
+                    self._channel(side, self.pc[side].createDataChannel("after-" + ch.label))
+                except InvalidStateError:
+                    pass
+            # (not from inside the event: an `async def` listener runs a moment later, when the transport has finished closing)
+            ch.on("close", lambda: self.loop.call_soon(reopen))
 
     def _track(self, side, track):
         self.tracks[side].append(track)
@@ -137,6 +147,10 @@ class Life:
             for ch in self.channels["A"][:1]:
                 ch.close()
             await asyncio.sleep(0.3 * self.pace)
+            # the application stops a transceiver itself: close() later meets a sender / receiver that is already stopped
+            for t in a.getTransceivers()[:1]:
+                await t.stop()
+            await asyncio.sleep(0.2 * self.pace)
         except (InvalidStateError, ConnectionError):
             pass                    # a negotiation call that lost the race against close()
         except Exception as e:      # other failures of the racing call are recorded, the oracle is about close()
@@ -280,6 +294,13 @@ def run_cut(shape, cut, closer):
         else:
             # only one side closed: close the other one too, then nothing at all may be left
             other = "B" if "A" in sides else "A"
+            # the survivor's application creates one more channel (its peer is gone: the association may already have been
+            # aborted) - close() must close that one too
+            late = None
+            try:
+                late = L.pc[other].createDataChannel("late")
+            except InvalidStateError:
+                pass                    # the connection closed itself when its transports went away
             t = loop.create_task(L.pc[other].close())
             L.harness_tasks.append(t)
             n2 = loop.callbacks_run
@@ -298,6 +319,19 @@ def run_cut(shape, cut, closer):
                 if left:
                     names = sorted({getattr(t.get_coro(), "__qualname__", "?") for t in left})
                     out.append(("leak/tasks", "%d tasks still pending after both sides closed: %s" % (len(left), names[:5])))
+                # the survivor has been closed as well by now: the same final-state clauses hold for it
+                pc = L.pc[other]
+                states = (pc.signalingState, pc.iceConnectionState, pc.connectionState)
+                if states != ("closed", "closed", "closed"):
+                    out.append(("state/not-closed", "%s (closed second): signaling/ice/connection state %r after close()" % (other, states)))
+                for ch in L.channels[other]:
+                    if ch.readyState != "closed":
+                        out.append(("state/channel-not-closed", "%s (closed second): channel %s is %s after close()" % (other, ch.label, ch.readyState)))
+                for tr in L.tracks[other]:
+                    if tr.readyState != "ended":
+                        out.append(("state/track-not-ended", "%s (closed second): received %s track is %s after close()" % (other, tr.kind, tr.readyState)))
+                if late is not None and late.readyState != "closed":
+                    out.append(("state/channel-not-closed", "%s: a channel created after the peer had closed is %s after close()" % (other, late.readyState)))
         unfinished = [t for t in L.consumers if not t.done()]
         if unfinished and all(L.pc[s].connectionState == "closed" for s in "AB"):
             out.append(("leak/track-consumer-blocked", "%d consumers of received tracks still blocked in recv() after close()" % len(unfinished)))
@@ -351,7 +385,7 @@ def run(tier, seed):
     return result(
         PID, total,
         rule="for each connection shape (%s) a scripted life (create tracks/data channels, offer/answer, connect with real DTLS and "
-             "SCTP over fake ICE, data messages, RTCP timers, the application closing one channel itself; in the *-media shapes encoded Opus / VP8 "
+             "SCTP over fake ICE, data messages, RTCP timers, the application closing one channel and stopping one transceiver itself; in the *-media shapes encoded Opus / VP8 "
              "packets flow every 20 / 40 ms through sender, SRTP, router, jitter buffer and the real decoder threads to a consumer) is stepped one event-loop callback at a time; for EVERY cut index 0..N "
              "(N = %s callbacks) and every closer in {A, B, both at once, A twice concurrently, A after its peer vanished} the run is "
              "replayed to the cut, close() is started and the default policy continues; oracle: close() completes within 30 virtual "
